@@ -292,7 +292,14 @@ def checkStep (e : Env) (pre : Sys) (op : Op) (res : Res) (post : Sys) (origin :
                                         -- … and names the content of that version again, not the abandoned update's
                                         (match m.orders.getLast?.bind post.st.getOrder with
                                          | some lo => m'.cid = lo.cid
-                                         | none => true)
+                                         | none => true) &&
+                                        -- … and lives as long as the stored shards of its committed versions are paid for, renewals included
+                                        m.orders.all (fun oid => match post.st.getOrder oid with
+                                          | some lo => lo.shards.all (fun id => match post.st.getShard id with
+                                              | some sh => sh.status ≠ ShardCompleted ||
+                                                  sh.renewInfos.foldl (fun a ri => a + ri.duration) (sh.createdAt + sh.duration) ≤ m'.createdAt + m'.duration
+                                              | none => true)
+                                          | none => true)
                            | none => false)
        if refunded && shardsGone && metaOk then none
        else some ("C05", s!"clause=cleanRefund cls=none rec=order{o.id}:refund={refunded},shards={shardsGone},meta={metaOk}"))
@@ -447,6 +454,14 @@ def checkStep (e : Env) (pre : Sys) (op : Op) (res : Res) (post : Sys) (origin :
      (match post.st.getPledge c with
       | some p => if 0 ≤ p.reward && p.reward < precision then [] else [("C08", s!"clause=claimLeavesFraction cls=none rec=sp{c}:{p.reward}")]
       | none => [])
+   | _, _ => []) ++
+  -- C08: "claiming pays … less any collateral debt recorded against it": while a debt remains after the claim, everything
+  -- claimed went into it — the provider was paid nothing
+  (match op, res with
+   | .claim c, .ok =>
+     let paid := post.st.bal c - pre.st.bal c
+     let debt' := (post.st.getDebt c).getD 0
+     if debt' > 0 && paid ≠ 0 then [("C08", s!"clause=claimLessDebt cls=none rec=sp{c}:paid={paid},debt-left={debt'}")] else []
    | _, _ => []) ++
   -- C08: whenever a provider's accrued reward or capacity changes, its reward debt is re-based on the accumulator at the
   -- new capacity — what was accrued and credited is never credited a second time (fault recovery zeroes both by design)
